@@ -298,7 +298,7 @@ def gen_hist(req, I):
 PROPS.update({
     'C16': dict(
         gens=[('complete', '-', 120, 600, 14), ('karate', '-', 1, 1, 0), ('gnp', 'small', 1500, 25000, 40), ('gnp', 'large', 40, 400, 300),
-              ('gnpstat', '-', 24, 200, 0)],
+              ('gnpstat', '-', 40, 300, 0)],
         translators=['karate'],
         spec_fields=[r'ok\.complete', r'ok\.karate', r'ok\.gnp'], model_fields=[r'nodes', r'edges'], impl_checks=[('same', '1')],
         custom=gnpstat_check, require_spec_fields=False,
